@@ -24,7 +24,53 @@ ZERO = {'real': 0, 'log': 0, 'mp': NINF, 'bool': 0}
 ONE = {'real': 1, 'log': 1, 'mp': 0, 'bool': 1}
 
 
+def gen_family(rng):
+    """signatures aimed at the unification machinery: one index joining many physical axes (three co-indexed operands,
+    one of them diagonal; an index repeated inside an operand), a summed index tied to output indices by a diagonal
+    (Viterbi pointers), and outputs that permute indices along which every operand is constant"""
+    fam = rng.choice(['same3', 'same3', 'repeat', 'tied', 'tied', 'bcast'])
+    ty = ('n', rng.choice([2, 3, 3]))
+    if fam == 'same3':
+        names = ['i', 'j'][:rng.choice([1, 2, 2])]
+        inputs = [rng.sample(names, len(names)) for _ in range(3)]
+        out = [n for n in names if rng.random() < 0.5]
+        share = [rng.choice([0.0, 0.9]) for _ in inputs]
+        share[rng.randrange(3)] = 1.0
+    elif fam == 'repeat':
+        names = ['i', 'j'][:rng.choice([1, 2])]
+        inputs = [['i', 'i']] + [rng.sample(names, rng.randint(1, len(names))) for _ in range(rng.randint(1, 2))]
+        if rng.random() < 0.3:
+            inputs.append(names + ['i'])
+        rng.shuffle(inputs)
+        out = [n for n in names if rng.random() < 0.6]
+        share = [rng.choice([0.0, 0.5]) for _ in inputs]
+    elif fam == 'tied':
+        names = ['x', 'i', 'j'] + (['k'] if rng.random() < 0.3 else [])
+        inputs = [['x', 'i'], ['i', 'j']] + ([['j', 'k']] if 'k' in names else []) + ([['j']] if rng.random() < 0.4 else [])
+        out = rng.choice([['x', 'i'], ['i', 'x'], ['x', 'i', 'k'] if 'k' in names else ['x', 'i']])
+        share = [0.0, 1.0] + [rng.choice([0.0, 1.0]) for _ in inputs[2:]]
+    else:
+        names = ['i', 'j', 'k'][:rng.choice([2, 3, 3])]
+        inputs = [list(names)] + ([rng.sample(names, rng.randint(1, len(names)))] if rng.random() < 0.4 else [])
+        out = list(names)
+        rng.shuffle(out)
+        share = [0.0 for _ in inputs]
+    types = {n: (ty if fam != 'bcast' else ('n', rng.choice([2, 3]))) for n in names}
+    if fam == 'tied':
+        types['x'] = ('n', rng.choice([2, 3]))
+    rng.shuffle(out)
+    used = [n for n in names if any(n in i for i in inputs)]
+    out = [n for n in out if n in used]
+    return {n: types[n] for n in used}, inputs, out, {'share': share, 'fam': fam}
+
+
 def gen_signature(rng):
+    if rng.random() < 0.3:
+        return gen_family(rng)
+    return gen_signature0(rng) + ({'share': None, 'fam': 'random'},)
+
+
+def gen_signature0(rng):
     nidx = rng.randint(1, 4)
     names = ['i', 'j', 'k', 'l'][:nidx]
     types = {n: PT.gen_type(rng, rng.choice([2, 3, 3, 4]), depth=1) for n in names}
@@ -44,16 +90,16 @@ def gen_signature(rng):
     return {n: types[n] for n in used}, inputs, out
 
 
-def carrier_pattern(rng, kind, types, start_id, allow_inf=True):
+def carrier_pattern(rng, kind, types, start_id, allow_inf=True, share=None, bcast=False):
     vals = [v for v in VALS[kind] if allow_inf or abs(v) < INF]
     d = rng.choice([ZERO[kind]] * 4 + [ONE[kind], rng.choice(vals)])
-    st = PT.gen_pattern(rng, types, default=d, start_id=start_id)
+    st = PT.gen_pattern(rng, types, default=d, start_id=start_id, **({} if share is None else {'share': share}))
     st['ph'] = [rng.choice(vals) for _ in st['ph']]
-    if st['ps'] and rng.random() < 0.4 and all(p['n'] > 0 for p in st['ps']):
+    if st['ps'] and (bcast or rng.random() < 0.4) and all(p['n'] > 0 for p in st['ps']):
         # constant along a random non-empty subset E of the physical axes: built as a stride-0 expanded view
         import itertools
         nps = len(st['ps'])
-        E = [k for k in range(nps) if rng.random() < 0.6] or [0]
+        E = [k for k in range(nps) if rng.random() < (0.85 if bcast else 0.6)] or [0]
         sizes = [p['n'] for p in st['ps']]
         newph = []
         for q in itertools.product(*[range(n) for n in sizes]):
@@ -93,7 +139,7 @@ def drive(args):
     from fggs import indices
     seed, i = args
     rng = rng_for(seed, f'c07-{i}')
-    types, inputs, output = gen_signature(rng)
+    types, inputs, output, hints = gen_signature(rng)
     kind = ['real', 'log', 'mp', 'bool'][i % 4]
     dtype = torch.float64 if (i // 4) % 2 == 0 else torch.float32
     grad = (i // 8) % 2 == 1 and kind in ('real', 'log', 'mp')
@@ -102,12 +148,13 @@ def drive(args):
     sizes = {n: PT.numel_type(t) for n, t in types.items()}
     c = {'sr': CARRIER[kind], 'inputs': inputs, 'output': output, 'sizes': sizes, 'ops': [], 'opdense': [], 'out': 'ok',
          'res': [], 'shape': [], 'viterbi': False, 'ptr': [], 'summed': [],
-         'tag': [kind, str(dtype).replace('torch.', ''), 'grad' if grad else 'nograd', 'viterbi' if viterbi else 'einsum']}
+         'tag': [kind, str(dtype).replace('torch.', ''), 'grad' if grad else 'nograd', 'viterbi' if viterbi else 'einsum', 'fam:' + hints['fam']]}
     if not sizes:
         c['sizes'] = {'_': 1}
     ops = []
     for k, lab in enumerate(inputs):
-        st = carrier_pattern(rng, kind, [types[n] for n in lab], 1 + 20 * k, allow_inf=True)
+        st = carrier_pattern(rng, kind, [types[n] for n in lab], 1 + 20 * k, allow_inf=True,
+                             share=hints['share'][k] if hints['share'] else None, bcast=hints['fam'] == 'bcast')
         c['ops'].append({'ps': st['ps'], 'vs': st['vs'], 'd': st['d'], 'ph': st['ph']})
         ops.append(build_real(st, kind, dtype))
     c['opdense'] = [to_carrier(p.to_dense(), kind) for p in ops]
